@@ -176,6 +176,10 @@ Definition export_ops : list (string * handler) :=
               omap (fun x => match x with VL [VL key; t] => match vlistN key, v_tree t with Some k', Some t' => Some (k', t') | _, _ => None end | _ => None end) rest with
         | Some s, Some g, Some r => Some (VL (map of_token (to_json_rest jtree (N.to_nat k) s jtree_id print g r)))
         | _, _, _ => None end | _ => None end);
+    (* C20 "lists every node once with its sequence": the S records a GFA of this graph must carry, in order *)
+    ("s.gfa_segments"%string, fun a => match a with [VN k; st; VL ns] => match vbool st, omap v_xnode ns with
+        | Some s, Some g => Some (VL (map (fun p => VL [ofnat (fst p); ofNs (fst (fst (snd p)))])
+                                         (combine (seq 0 (List.length g)) g))) | _, _ => None end | _ => None end);
     ("x.pal"%string, fun a => match a with [VN k; st; VL ns] => match vbool st, omap v_xnode ns with
         | Some s, Some g => Some (VL (map (fun i => ofbool (pal_node jtree (N.to_nat k) s g i)) (seq 0 (List.length g)))) | _, _ => None end | _ => None end);
     ("x.etab"%string, fun a => match a with [VN k; st; VL ns] => match vbool st, omap v_xnode ns with
